@@ -30,13 +30,16 @@ def _json_tail(text):
     return None
 
 
-def run_worker(module, ob):
+def run_worker(module, ob, isolate=False):
     cmd = [PY, '-m', 'vf.worker', module, ob['fn'], json.dumps(ob['params']), str(ob['timeout']),
            str(ob['path_timeout']) if ob.get('path_timeout') else '-']
     hard = 30 + ob['timeout'] * 1.5 + 90
     t0 = time.time()
+    env = dict(os.environ)
+    if isolate:
+        env['VF_ISOLATE'] = '1'
     try:
-        p = subprocess.run(cmd, cwd=ROOT, capture_output=True, text=True, timeout=hard)
+        p = subprocess.run(cmd, cwd=ROOT, capture_output=True, text=True, timeout=hard, env=env)
         res = _json_tail(p.stdout)
         if res is None:
             res = {'crash': 'worker produced no result (rc=%s): %s' % (p.returncode, (p.stderr or '')[-600:])}
@@ -224,6 +227,27 @@ def main():
                 continue
             rr = run_replay(module, ob['fn'], ob['params'], call_src)
             clause = failing(rr)
+            if not clause and rr.get('untraced') and not ob.get('_isolated'):
+                # the counterexample was found in a process that had already run other scenarios and does not reproduce in a
+                # fresh one: the code under test keeps state across scenarios. Search again with every scenario isolated in
+                # its own (forked) process, so that any counterexample found is self-contained.
+                print('note: %s: counterexample %s does not reproduce in a fresh process; repeating the search with isolated '
+                      'scenarios' % (name, call_src))
+                ob2 = dict(ob, _isolated=True, timeout=ob['timeout'] * 2)
+                res2 = run_worker(module, ob2, isolate=True)
+                ck2 = res2.get('check', {}) if 'crash' not in res2 else {}
+                if ck2.get('state') in ('post_fail', 'exec_err', 'post_err'):
+                    try:
+                        call_src = parse_call(ck2['message'], ob['fn'])
+                        rr = run_replay(module, ob['fn'], ob['params'], call_src)
+                        clause = failing(rr)
+                        ck = ck2
+                    except Exception as e:  # noqa
+                        pass
+                elif ck2.get('state') == 'confirmed':
+                    inconclusive.append({'condition': name, 'reason': 'order-dependent: a counterexample (%s) appeared only after other '
+                                         'scenarios had run in the same process; with isolated scenarios the condition is confirmed' % call_src})
+                    continue
             if clause:
                 nviol += 1
                 path = write_replay(prop, nviol, module, ob, call_src, clause, rr)
